@@ -104,7 +104,7 @@ PLAN = {
         "level": "model_checking",
         "rule": RULE_TRACE + "; each operand tuple is expanded into every spelling (4 reference/value forms, 2 assignment forms, 3 pairings, 5 operators, trait wrappers); the determinism memo of the specification demands identical words",
         "models": [MC("MC_P3_mul.cfg", W_MUL), MC("MC_P3_addsub.cfg", W_ADD, "thorough")],
-        "traces": [T("spell", (40, 4000), (12, 14))],
+        "traces": [T("spell", (40, 300), (12, 14))],
     },
     "C01": {
         "level": "model_checking",
@@ -128,7 +128,7 @@ PLAN = {
         "traces": [T("fma", (1500, 40000), (4, 8), "std"), T("fma", (1500, 40000), (4, 8), "nostd"),
                    T("arith_all", (80, 2000), (4, 8), "std"), T("arith_all", (80, 2000), (4, 8), "nostd"),
                    T("arith_new", (150, 3000), (4, 8), "std"), T("arith_new", (150, 3000), (4, 8), "nostd"),
-                   T("elem_all", (2500, 40000), (12, 14), "std"), T("elem_all", (2500, 40000), (12, 14), "nostd"),
+                   T("elem_all", (2500, 8000), (12, 14), "std"), T("elem_all", (2500, 8000), (12, 14), "nostd"),
                    T("frac", (100, 2000), (2, 4), "std"), T("frac", (100, 2000), (2, 4), "nostd"),
                    T("arith_rem", (150, 3000), (4, 8), "std"), T("arith_rem", (150, 3000), (4, 8), "nostd"),
                    T("arith_div", (100, 2000), (2, 6), "std"), T("arith_div", (100, 2000), (2, 6), "nostd"),
